@@ -732,7 +732,7 @@ pub fn run(opts: &Opts) -> i32 {
         }
     }
     if opts.get("only") == Some("limited") {
-        cfgs.retain(|c| c.persistent && c.limit.is_some());
+        cfgs.retain(|c| c.limit.is_some());
     }
     if opts.get("only") == Some("persistent") {
         cfgs.retain(|c| c.persistent);
@@ -761,7 +761,19 @@ pub fn run(opts: &Opts) -> i32 {
                 let item = work.lock().unwrap().pop();
                 let Some((ci, cfg, s)) = item else { break };
                 let path = format!("{scratch}/seq_{sh}_{ci}.feox");
-                let (case, res, verdict, t) = run_sequence(&cfg, s, nops, &path);
+                let caught = std::panic::catch_unwind(std::panic::AssertUnwindSafe(|| run_sequence(&cfg, s, nops, &path)));
+                let (case, res, verdict, t) = match caught {
+                    Ok(x) => x,
+                    Err(e) => {
+                        let msg = e.downcast_ref::<String>().cloned().or_else(|| e.downcast_ref::<&str>().map(|m| m.to_string())).unwrap_or_default();
+                        (
+                            format!("note sequence-panicked cfg={ci} seed={s} ops={nops}"),
+                            "note".to_string(),
+                            format!("FAIL an-api-call-panicked cfg={ci} seed={s} ops={nops}: {}", msg.replace('\n', " ")),
+                            [0; 3],
+                        )
+                    }
+                };
                 for i in 0..3 {
                     tiers[i] += t[i];
                 }
